@@ -244,6 +244,27 @@ func strShape(v ssa.Value) []strPart {
 						cp = call
 					}
 				}
+				// copy(padded[:len(s)], s): the same write, the destination cut to what is copied anyway
+				if sl, isSl := r.(*ssa.Slice); isSl && sl.X == ssa.Value(x) && sl.Low == nil && sl.Max == nil && sl.High != nil && sl.Referrers() != nil {
+					var use *ssa.Call
+					uses := 0
+					for _, rr := range *sl.Referrers() {
+						if _, isDbg := rr.(*ssa.DebugRef); isDbg {
+							continue
+						}
+						uses++
+						if call, isCall := rr.(*ssa.Call); isCall {
+							if bi, isB := call.Call.Value.(*ssa.Builtin); isB && bi.Name() == "copy" && call.Call.Args[0] == ssa.Value(sl) {
+								use = call
+							}
+						}
+					}
+					if lc, isL := sl.High.(*ssa.Call); isL && uses == 1 && use != nil {
+						if bi, isB := lc.Call.Value.(*ssa.Builtin); isB && bi.Name() == "len" && lc.Call.Args[0] == use.Call.Args[1] {
+							cp = use
+						}
+					}
+				}
 			}
 			// padded := make([]byte, k); copy(padded, s): s followed by k-len(s) zero octets (the only write into the fresh slice;
 			// that len(s) <= k holds where the slot is written is what the #fit obligation establishes)
